@@ -29,7 +29,7 @@ inductive Cmd where
   | set (v : Val)
   | getset (v : Val)
   | del
-  | sinterstore          -- `SINTERSTORE k <missing set>`: deletes `k`, replies 0
+  | sinterstore          -- `SINTERSTORE k <missing set>`: deletes `k`, replies 0 (typed `Sinterstore` since fix ddfb301)
   deriving DecidableEq, Repr, Hashable
 
 /-- upper-cased command name as the proxy sees it -/
